@@ -4,8 +4,7 @@
                   (M = faithful model of zix_path_lexically_normal, S = std_normal of the spec)
    canon        : per line (hex of a result string) the observable part  root= elems= nf=
                   computed with the extracted spec functions (used on the implementation's output)
-   spec         : per case the hex text of std_normal (compared with libstdc++)
-   class        : per case the class letters of the input (A,B,C,D / plain / sub-class) *)
+   spec         : per case the hex text of std_normal (compared with libstdc++) *)
 module String = Stdlib.String
 module List = Stdlib.List
 module Array = Stdlib.Array
@@ -32,12 +31,6 @@ let () =
       if line = "NULL" || String.length line = 0 || line.[0] = 'C' then print_endline line
       else print_endline (obs (bytes_of_case line))
     | "spec" -> print_endline (hex_of_zs (PathNormSpec.std_normal (bytes_of_case line)))
-    | "class" ->
-      let s = bytes_of_case line in
-      Printf.printf "%s%s%s%s plain=%b sub=%b\n"
-        (if PathNormSpec.class_A s then "A" else "") (if PathNormSpec.class_B s then "B" else "")
-        (if PathNormSpec.class_C s then "C" else "") (if PathNormSpec.class_D s then "D" else "")
-        (PathNormSpec.plain s) (PathNormSpec.no_dotdot_tail s)
     | _ ->
       let s = bytes_of_case line in
       (match PathNormModel.zix_normal_full s with
